@@ -59,7 +59,8 @@ def canon(v):
         return U
     if isinstance(v, KGSym):
         return ('y', str.__str__(v))
-    if isinstance(v, KGChar):
+    if isinstance(v, KGChar) or (isinstance(v, str) and type(v).__name__ == 'KGChar'):
+        # klongpy.backends.numpy_backend defines a second KGChar class; the writer treats both as characters
         return ('c', str.__str__(v))
     if isinstance(v, str):
         return ('s', v)
